@@ -16,7 +16,8 @@ pub struct RawPriceData {
     pub timestamp: Timestamp,
 }
 
-const KEYS: &[&str] = &["none", "ETH", "BTC"];
+// two keys that differ only in letter case and surrounding whitespace: distinct keys, distinct round histories
+const KEYS: &[&str] = &["none", "stETH", " STETH"];
 const WHO: &[&str] = &["nobody", "feedowner", "stranger", "newowner"];
 fn who_id(a: &str) -> usize {
     WHO.iter().position(|x| *x == a).unwrap_or(0)
@@ -204,7 +205,7 @@ pub fn run(seed: u64, count: u64, out: &mut dyn Write, stats: &mut Stats) {
                         .join(";"),
                 }
             };
-            let line = format!("POP h={} k={} {} now={} wf={} own={} r1={} r2={}", h, k, body, now, well_formed as u8, who_id(own.owner.as_str()), dump("ETH"), dump("BTC"));
+            let line = format!("POP h={} k={} {} now={} wf={} own={} r1={} r2={}", h, k, body, now, well_formed as u8, who_id(own.owner.as_str()), dump(KEYS[1]), dump(KEYS[2]));
             stats.distinct(&line);
             stats.sample(&line);
             writeln!(out, "{}", line).unwrap();
